@@ -2,34 +2,121 @@
 """C14 — bounces go back once, to the sender, and can neither loop nor be forged."""
 import os, sys
 sys.path.insert(0, os.path.join(os.path.dirname(os.path.abspath(__file__)), "..", "tools"))
-from nqlib import run_standard
+import nqlib
+from nqlib import Check, run_pipeline, parse_driver_output, standard_verdict, driver_path, kv, shortest, byte_mutations, VERIF, NCPU
 
+PROP = "C14"
+HARNESS = "harness/c14_bounce.c"
 RULE = ("the real qmail-send.c stripvdomprepend()/addbounce()/del_dochan()/getcontrols()/injectbounce() (ASan+UBSan build of the working "
         "tree, in-memory file system and captured qmail-queue interface) against the Lean model Nq.Bounce: (P) every failure report over "
         "{LF,x,<,>,:,0x80} up to length %s and every recipient over {LF,a,b,@,-,.} up to length %s against a virtualdomains file with exact, "
-        "wildcard, catch-all, exception, virtual-user (user@domain, also with a dash in the prepend) and mixed-case entries, once without and "
+        "wildcard, catch-all, domain-exception, virtual-user (user@domain, also with a dash in the prepend), mixed-case entries and an exception entry "
+        "for one whole address, once without and "
         "once with a locals file that overlaps it, plus a recipient x report x write-behaviour (short writes, ENOSPC, open failure) matrix "
         "under four locals/virtualdomains pairs, compared on the bytes appended to bounce/<id>; (I) every sender form (ordinary, empty, #@[], VERP "
         "-@[] variants, quoted, 8-bit, LF-bearing) x which of me/bouncefrom/bouncehost/doublebounceto/doublebouncehost/virtualdomains/locals exist, "
         "and every failure point of injectbounce (info, stat, qmail_open, bounce/mess open and read, qmail_close, unlink) followed by a "
         "retry, compared on return value, envelope, full notice text, log and whether bounce/<id> remains; (C) the chain message -> bounce "
         "-> double bounce -> discard with every generated message failing; (D) spawner reports through del_dochan (status D/Z/K/other, "
-        "dying or not, lengths around REPORTMAX, read chunkings); plus seeded random cases of all four kinds (reports up to 12 KB). Oracle "
-        "on the implementation's output: exactly one paragraph per failed recipient starting with its <address>: line (address = the recipient "
-        "with the prefix undone as rewrite() applied it: none for a locals domain, else virtual-user cut, else governing domain entry), blank line only at "
-        "the end, report text shown up to LF->/, envelope rules, chain length <= 2, bounce file removed only after queueing, no second "
+        "dying or not, lengths around REPORTMAX, read chunkings); plus seeded random cases of all four kinds (reports up to 12 KB) and the corpus "
+        "corpus/C14.txt. Oracle on the implementation's output, its tables and the double-bounce address computed on the spec side from the raw "
+        "control-file bytes (specVdoms/specLocals/specDoubleBounceTo, not the model's getcontrols): exactly one paragraph per failed recipient starting with its <address>: line (address = the recipient "
+        "with the prefix undone as rewrite() applied it: none for a locals domain, none for a recipient with an exception entry of its own, else virtual-user cut, else governing domain entry), blank line only at "
+        "the end, report text shown up to LF->/, original message a suffix of the notice, envelope rules, chain length <= 2, bounce file removed only after queueing, no second "
         "notice after success; non-trivial = distinct case with a prefix removed or kept by the locals/virtual-user rules, an LF-bearing recipient, a report with an empty line, a "
         "queued/failed injection, a non-empty chain or a recorded bounce")
+ARGS = {"quick": "7 6 6000", "thorough": "9 7 60000"}
+ASSUME = ["qmail-queue is replaced by a capture of the qmail_open/put/from/to/close calls (qmail.c's own discipline is C07; qmail-queue's is C01)",
+          "the queue directory is an in-memory file system behind open_read/open_append/open_write/read/write/close/stat/fstat/unlink; "
+          "sleep() returns at once, time() is fixed (the Date: line is compared for that instant)",
+          "strings taken from the envelope, the control files and the spawner contain no NUL byte (they are C strings in the real program)",
+          "daemon-level scheduling of injectbounce (messdone, retry after SLEEP_SYSFAIL, crash windows) belongs to the Daemon model (C03/C04); the daemon-level "
+          "replay of drv_c14 is a SYNTHETIC life: arrival, preprocessing, delivery commands, reports and marks are fabricated set-up events, only appendBounce / "
+          "bounceInject / unlinkBounce carry bytes and outcomes of the real addbounce()/injectbounce()",
+          "which variant of stripvdomprepend() the model transcribes (with or without the whole-recipient exception lookup of notes/C14-fix-3.diff) is read from "
+          "qmail-send.c by tools/extractors/c14.py (Nq.Gen.stripWholeFirst); theorems are proved for both variants, the oracle is the same strict rule for both",
+          "open finding C14-strip-exception: a failing recipient that has an exception entry of its own (user@domain: with an empty prepend) next to a "
+          "virtualdomains entry for its domain is named with the domain's prefix removed; the oracle is strict there, exactly these cases carry the tag "
+          "known=C14-strip-exception and are reported as KNOWN-FINDING once the entry is in known_findings.json (VIOLATION until then, or until the patch is applied)"]
+NAME = ("Nq.Bounce (stripvdom, addbounceText, delReport, getcontrols, inject/bounceOf) vs qmail-send.c "
+        "stripvdomprepend()/addbounce()/del_dochan()/getcontrols()/injectbounce()")
+PREFIXES = ("P", "I", "C", "D")
 
-run_standard("C14", "Nq.Props.C14", "drv_c14", "harness/c14_bounce.c", "qmail-send",
-             ["qmail.o", "qsutil.o", "control.o"],
-             "7 6 6000", "9 7 60000", {"quick": RULE % (7, 6), "thorough": RULE % (9, 7)},
-             "Nq.Bounce (stripvdom, addbounceText, delReport, getcontrols, inject/bounceOf) vs qmail-send.c "
-             "stripvdomprepend()/addbounce()/del_dochan()/getcontrols()/injectbounce()",
-             alphabet=b"\n\nx<>:@-[]#/",
-             stdin_prefixes=("P", "I", "C", "D"),
-             assumptions=["qmail-queue is replaced by a capture of the qmail_open/put/from/to/close calls (qmail.c's own discipline is C07; qmail-queue's is C01)",
-                          "the queue directory is an in-memory file system behind open_read/open_append/open_write/read/write/close/stat/fstat/unlink; "
-                          "sleep() returns at once, time() is fixed (the Date: line is compared for that instant)",
-                          "strings taken from the envelope, the control files and the spawner contain no NUL byte (they are C strings in the real program)",
-                          "daemon-level scheduling of injectbounce (messdone, retry after SLEEP_SYSFAIL, crash windows) belongs to the Daemon model (C03/C04)"])
+
+def is_known(line):
+    """an ORACLE line that reproduces an open entry of known_findings.json (matched on the tag the driver computes from the case)"""
+    return any(kf.get("match") and kf["match"] in line for kf in nqlib.known_findings(PROP))
+
+
+def stdin_case(line):
+    d = kv(line)
+    return "%s %s" % (d.get("kind", "P"), d.get("in", "-"))
+
+
+def main():
+    c = Check(PROP)
+    ok = c.proofs("Nq.Props.C14", drivers=["drv_c14"])
+    s = c.build_repo()
+    stats, samples, disagree, oracle, errors = {}, [], [], [], []
+    neighbourhood = None
+    if s.ok and c.driver_ok:
+        try:
+            h = s.cc(os.path.join(VERIF, HARNESS), os.path.join(s.dir, "h_c14"), link_like="qmail-send",
+                     objs_exclude=["qmail.o", "qsutil.o", "control.o"])
+            drv = driver_path("drv_c14")
+            cmds = []
+            corpus = os.path.join(VERIF, "corpus", PROP + ".txt")
+            if c.replay:
+                cmds.append("%s - < %s" % (h, c.replay))
+            else:
+                if os.path.exists(corpus):
+                    cmds.append("%s - < %s" % (h, corpus))
+                cmds += ["%s %s %d %d %d" % (h, ARGS[c.tier], c.seed, i, NCPU) for i in range(NCPU)]
+            outs = run_pipeline(cmds, drv)
+            stats, samples, disagree, oracle, errors = parse_driver_output(outs)
+
+            def neighbourhood(dis):
+                cases = byte_mutations(dis, c.seed, b"\n\nx<>:@-[]#/", prefix_variants=PREFIXES)
+                if not cases:
+                    return None
+                tf = os.path.join(s.dir, "nb.txt")
+                open(tf, "w").write("\n".join(cases) + "\n")
+                o2 = run_pipeline(["%s - < %s" % (h, tf)], drv)
+                st2, _, _, or2, _ = parse_driver_output(o2)
+                c.cov["search_cases"] = st2.get("cases", 0)
+                or2 = [x for x in or2 if not is_known(x)]
+                return shortest(or2) if or2 else None
+        except Exception as ex:
+            errors.append(str(ex))
+    else:
+        errors.append("build failed: " + "\n".join(c.notes)[-3000:])
+    # open known findings: the shortest reproducing case goes through Check.violation (prints KNOWN-FINDING once, suppresses exactly
+    # the tagged lines); every other oracle failure goes to the standard verdict, so a known case can never mask another failure
+    known = [x for x in oracle if is_known(x)]
+    oracle = [x for x in oracle if not is_known(x)]
+    if known:
+        k0 = shortest(known)
+        c.violation("property oracle fails on the implementation's output (listed known finding)",
+                    {"failing_case": kv(k0), "raw": k0[:4000], "stdin_case": stdin_case(k0), "cases": len(known)}, found_input=True)
+    c.cov["known_finding_cases"] = len(known)
+    c.cov["evaluations"] = int(stats.get("cases", 0))
+    c.cov["distinct_nontrivial"] = int(stats.get("distinct_nontrivial", 0))
+    c.cov["traces_validated_against_impl"] = max(0, int(stats.get("cases", 0)) - int(stats.get("disagree", 0)))
+    c.cov["rule"] = RULE % ((7, 6) if c.tier == "quick" else (9, 7))
+    c.cov["exhaustive"] = False
+    c.cov["samples"] = samples[:6] or ["(no sample emitted)"]
+    c.cov["input_distribution"] = {k: v for k, v in stats.items() if k not in ("cases", "distinct_nontrivial", "disagree", "oracle_fail")}
+    c.assumptions += ASSUME
+    hint = "./check C14 --replay <file of stdin cases '<kind> <blobhex>' for %s>" % HARNESS
+    first = shortest(oracle) if oracle else None
+    if first:
+        rp = os.path.join(VERIF, "replays", "%s-%s-%d-case.txt" % (PROP, c.tier, c.seed))
+        os.makedirs(os.path.dirname(rp), exist_ok=True)
+        open(rp, "w").write(stdin_case(first) + "\n")
+        hint = "./check C14 --replay %s" % rp
+    standard_verdict(c, ok, stats, disagree, oracle, errors, NAME, neighbourhood, replay_hint=hint)
+    c.finish()
+
+
+if __name__ == "__main__":
+    main()
